@@ -192,6 +192,8 @@ def specRIf (k r : Nat) (avail : Bool) : Sig := { writes := some k, sticky := so
 def fitS (req : List Nat) : Sig := { isFit := true, req := req }
 def readS (req : List Nat) : Sig := { req := req }
 def resS : Sig := { needsFit := true }
+/-- a result method that also tests some slots itself (implied by `needsFit` whenever every fit requires them) -/
+def resG (req : List Nat) : Sig := { needsFit := true, req := req }
 
 /-- IPTW: slots 0 treatment_model, 1 missing_model, 2 marginal_structural_model -/
 def iptw (miss : Bool) : Cls := ⟨3, 0, [
@@ -220,7 +222,7 @@ def aiptw (miss : Bool) : Cls := ⟨3, 0, [
   specIf 1 miss,        -- 1 missing_model
   spec 2,               -- 2 outcome_model
   fitS [0, 2],          -- 3 fit
-  resS,                 -- 4 summary
+  resG [0],             -- 4 summary (explicit guard on the exposure model only; the results are None before fit)
   readS [0, 2],         -- 5 run_diagnostics
   readS [0],            -- 6 positivity
   readS [0],            -- 7 standardized_mean_differences
@@ -232,7 +234,7 @@ def aiptw (miss : Bool) : Cls := ⟨3, 0, [
 def tmle (miss : Bool) : Cls := ⟨3, 0, [
   spec 0, specIf 1 miss, spec 2,
   fitS [0, 2],          -- 3 fit
-  resS,                 -- 4 summary
+  resG [0],             -- 4 summary (as AIPTW)
   readS [0, 2],         -- 5 run_diagnostics
   readS [0],            -- 6 positivity
   readS [0],            -- 7 standardized_mean_differences
@@ -287,7 +289,7 @@ def ipcw : Cls := ⟨1, 0, [spec 0, fitS [0]]⟩
 
 /-- MonteCarloGFormula: slots 0 exposure_model, 1 outcome_model, 2 censoring_model, 3 add_covariate_model (one
     label, added once: the method appends, it does not respecify) -/
-def monteCarlo : Cls := ⟨4, 0, [spec 0, spec 1, spec 2, spec 3, fitS [1, 0]]⟩
+def monteCarlo : Cls := ⟨4, 0, [spec 0, spec 1, spec 2, spec 3, fitS [0, 1]]⟩
 
 /-- IterativeCondGFormula: slot 0 outcome_model -/
 def iterCond : Cls := ⟨1, 0, [spec 0, fitS [0]]⟩
